@@ -109,13 +109,15 @@ ERRNO = {"write": "ENOSPC", "pwrite64": "ENOSPC", "copy_file_range": "ENOSPC", "
 PSEUDO = (21, 22)            # steps of the model that are not system calls (order check, reading the server's response)
 NOT_RELIC = (95,)            # Go's os.Rename stats the new name first: not a step of relic's code
 COLLAPSE = (1, 8, 16, 24, 14)
+CREATE_ERRNOS = ("EACCES", "ENOSPC", "EMFILE", "ENAMETOOLONG", "EDQUOT", "EROFS", "ENFILE", "EPERM")
+NOBODY = 65534              # the uid the driver drops to when directory permissions are to apply (scenarios "rodir")
 OLD2 = b"PREVIOUS-DESTINATION-CONTENT\n" * 7
 INPUT = bytes((i * 7 + 3) % 251 for i in range(5000))
 TEXT = b"first line\n-dash escaped line\nlast line without newline"
 KIND_NAMES = {0: "create-temp", 1: "write", 2: "pwrite", 3: "fchmod", 4: "close-temp", 5: "unlink-dest", 6: "rename", 7: "unlink-temp",
               8: "copy", 9: "ftruncate", 10: "lseek-input", 11: "close-input", 12: "stat-dest", 13: "fstat-input", 14: "read-input",
               15: "lseek-temp", 16: "pread-temp", 17: "write-stdout", 18: "open-dest-directly", 19: "pwrite-input", 20: "ftruncate-input",
-              23: "close-stdout", 24: "pread-input"}
+              23: "close-stdout", 24: "pread-input", 28: "write-dest-directly", 29: "close-dest"}
 
 
 def unhex(sx):
@@ -165,11 +167,11 @@ def run_x(d, spec, kill=None, fail=None, full=False):
     """one output phase of the real code under strace; kill / fail = (syscall name, ordinal) on the main thread"""
     drv = os.path.join(BUILD, "drv-c13")
     tr = os.path.join(d, "x.trace")
-    cmd = ["strace", "-f", "-o", tr, "-xx", "-s", "200000" if full else "300", "-e", "trace=" + SYS2]
+    cmd = ["strace", "-f", "-o", tr, "-xx", "-s", "200000" if full else "700", "-e", "trace=" + SYS2]
     if kill:
         cmd += ["-e", "inject=%s:signal=SIGKILL:when=%d" % kill]
     for f in (fail or []):
-        cmd += ["-e", "inject=%s:error=%s:when=%d" % (f[0], ERRNO.get(f[0], "EIO"), f[1])]
+        cmd += ["-e", "inject=%s:error=%s:when=%d" % (f[0], f[2] if len(f) > 2 else ERRNO.get(f[0], "EIO"), f[1])]
     cmd += [drv, "c13x", spec]
     p = subprocess.run(cmd, stdout=subprocess.PIPE, stderr=subprocess.PIPE, env=dict(os.environ, GOMAXPROCS="1"), timeout=120)
     lines = open(tr).read().splitlines() if os.path.exists(tr) else []
@@ -229,6 +231,24 @@ class Scenario:
             self.dest = "-"
         elif k == "devnull":
             os.symlink("/dev/null", self.dest)
+        # ---- destinations next to which the sibling temporary cannot be created (the open phase fails)
+        self.uid, self.nofile = 0, False
+        m = re.match(r"long(\d+)(-absent)?$", k)
+        if m:                                            # base name of N bytes: <name>.tmp<random> exceeds NAME_MAX from N = 242 on
+            n = int(m.group(1))
+            self.dest = os.path.join(d, ("L%d-" % n + "x" * n)[:n])
+            if not m.group(2):
+                open(self.dest, "wb").write(OLD2)
+        elif k in ("rodir", "rodir-absent"):             # directory without write permission, destination itself writable
+            self.uid = NOBODY
+            if k == "rodir":
+                open(self.dest, "wb").write(OLD2)
+                os.chmod(self.dest, 0o666)
+        elif k in ("emfile", "emfile-absent"):           # no descriptor left: open of anything fails with EMFILE
+            self.nofile = True
+            if k == "emfile":
+                open(self.dest, "wb").write(OLD2)
+        self.special = self.dest != "-" and os.path.exists(self.dest) and not os.path.isfile(self.dest)
         self.resigned = False
         if self.first is not None:                      # a complete earlier signing to the same destination
             fp = os.path.join(self.side, "first.json")
@@ -244,9 +264,17 @@ class Scenario:
         self.input0 = open(self.inp, "rb").read()
         self.nlink = os.lstat(self.dest).st_nlink if self.dest != "-" and os.path.lexists(self.dest) else 0
         self.in_place_name = (self.dest == self.inp)
+        if self.uid:
+            for pth in (self.root, self.side):
+                os.chmod(pth, 0o755)
+            os.chmod(self.d, 0o555)
 
     def spec_obj(self, kw, sigs):
         sp = {"strategy": self.strategy, "in": self.inp, "dest": self.dest, "rw": self.dest == self.inp}
+        if getattr(self, "uid", 0):
+            sp["uid"] = self.uid
+        if getattr(self, "nofile", False):
+            sp["nofile"] = True
         pay = kw.get("payload")
         if self.strategy == "pgp":
             sp.update({"inline": bool(kw.get("inline")), "clearsign": bool(kw.get("clearsign")), "armor": bool(kw.get("armor"))})
@@ -337,7 +365,7 @@ def decode_phase(sc, calls):
     for c in calls[:start]:
         if c.name == "openat" and c.strs and c.strs[0].decode(errors="replace") == sc.inp and c.ret is not None and c.ret >= 0:
             infd = c.ret
-    ev, tmpfd, tmpname = [], None, None
+    ev, tmpfd, tmpname, destfd = [], None, None, None
     destb = sc.dest.encode()
     for i in range(start + 1, len(calls)):
         c = calls[i]
@@ -346,14 +374,17 @@ def decode_phase(sc, calls):
         n, k, amt, data, off = c.name, 96, 0, None, 0
         ok = c.ret is not None and c.ret >= 0
         istmp = tmpfd is not None and fd == tmpfd
+        isdest = destfd is not None and fd == destfd
         if n == "openat":
             pth = c.strs[0] if c.strs else b""
             if "O_EXCL" in c.tail and b".tmp" in os.path.basename(pth):
                 k = 0
                 if ok:
                     tmpfd, tmpname = c.ret, pth
-            elif pth == destb and "O_TRUNC" in c.tail:
-                k = 18
+            elif pth == destb and any(f in c.tail for f in ("O_TRUNC", "O_WRONLY", "O_RDWR", "O_CREAT", "O_APPEND")):
+                k = 18                               # the destination itself opened for writing
+                if ok:
+                    destfd = c.ret
             else:
                 k = 99
         elif n == "fstat":
@@ -363,10 +394,10 @@ def decode_phase(sc, calls):
         elif n == "lseek":
             k = 10 if fd == infd else 15 if istmp else 98
         elif n == "write":
-            k = 1 if istmp else 17 if fd == 1 else 98
+            k = 1 if istmp else 17 if fd == 1 else 28 if isdest else 98
             amt, data = (c.ret if ok else 0), (c.strs[0] if c.strs else None)
         elif n == "pwrite64":
-            k = 2 if istmp else 19 if fd == infd else 98
+            k = 2 if istmp else 19 if fd == infd else 28 if isdest else 98
             amt, data, off = (c.ret if ok else 0), (c.strs[0] if c.strs else None), (a[-1] if a else 0)
         elif n == "copy_file_range":
             k, amt = 8, (c.ret if ok else 0)
@@ -379,7 +410,9 @@ def decode_phase(sc, calls):
         elif n in ("fchmod", "fchmodat"):
             k = 3
         elif n == "close":
-            k = 4 if istmp else 11 if fd == infd else 23 if fd == 1 else 98
+            k = 4 if istmp else 11 if fd == infd else 23 if fd == 1 else 29 if isdest else 98
+            if isdest and ok:
+                destfd = None
         elif n in ("rename", "renameat", "renameat2"):
             k = 6 if tmpname is not None and c.strs and c.strs[0] == tmpname and c.strs[-1] == destb else 97
         elif n in ("unlink", "unlinkat"):
@@ -420,7 +453,14 @@ def coalesce(ps):
     return out
 
 
-def model_request(sc, events):
+def open_env(events):
+    """the environment of the open phase as the trace shows it: [creation of the sibling failed, os.Create failed, os.OpenFile failed]"""
+    tf = 1 if any(e["k"] == 0 and not e["ok"] for e in events) else 0
+    df = 1 if any(e["k"] == 18 and not e["ok"] for e in events) else 0
+    return [tf, df, df]
+
+
+def model_request(sc, events, env=None):
     dirents, inodes, pd = sc.model_fs()
     st, sp = sc.strategy, json.load(open(sc.spec))
     is_dash = 1 if sc.dest == "-" else 0
@@ -447,20 +487,20 @@ def model_request(sc, events):
         # what go-crypto writes for a merge is its own business; reads of the input and writes are read off the trace
         # (the first lseek on the input is pgpTransformer.Apply's own rewind before a merge; later ones are getSize's)
         io, rewound = [], not (sc.kw.get("inline") or sc.kw.get("clearsign"))
-        wr = [e for e in events if e["k"] in (1, 17)]
+        wr = [e for e in events if e["k"] in (1, 17, 28)]
         # armor: the write just before "\n=" + CRC is the encoder's last line, the one whose error go-crypto itself drops
         last_line = next((wr[i - 1]["i"] for i in range(1, len(wr)) if (wr[i]["data"] or b"").startswith(b"\n=")), None) if sc.kw.get("armor") else None
         for e in events:
             if e["k"] == 14:
                 io.append([0])
-            elif e["k"] in (1, 17):
+            elif e["k"] in (1, 17, 28):
                 io.append([3 if e["i"] == last_line else 1, e["data"] or b""])
             elif e["k"] == 10:
                 if rewound:
                     io.append([2])
                 rewound = True
         args, sid = [is_dash, 1 if sc.kw.get("inline") else 0, 1 if sc.kw.get("clearsign") else 0, io], 4
-    return [1, sid, dirents, inodes, 1, pd, 3, 20, args]
+    return [1, sid, dirents, inodes, 1, pd, 3, 20, args, env if env is not None else open_env(events)]
 
 
 def scenarios(base, tier):
@@ -504,6 +544,27 @@ def scenarios(base, tier):
     S("seq-msi-resign", "msi", "absent", first={}, resign=True, payload=bytes([0x30, 0x83]) * 2500)
     S("seq-msi", "msi", "regular", first={}, payload=bytes([0x30, 0x83]) * 2500)
     S("seq-pgp-clearsign", "pgp", "regular", clearsign=True, first={"clearsign": True})
+    # ---- the sibling temporary cannot be created: <name>.tmp<up to 10 digits> exceeds NAME_MAX (255) for base names of 242 bytes and
+    # more (242..250: depending on the random suffix; 251..255: always), the directory is not writable for the user while the
+    # destination is, no descriptor is left.  Every strategy that stages through WriteAny / New, destination present and absent.
+    stage = [("whole", "whole", dict(payload=pay)), ("writefile", "writefile", dict(payload=pay[:9000])), ("pgp-detached", "pgp", {}),
+             ("pgp-clearsign", "pgp", dict(clearsign=True)), ("pgp-inline", "pgp", dict(inline=True)),
+             ("patch-mid", "patch", dict(patches=mid)), ("msi", "msi", {})]
+    kinds = ["long251", "long255"] + (["rodir"] if os.geteuid() == 0 else []) + ["emfile"]
+    for tag, strat, kw in stage:
+        for dk in kinds:
+            for ab in ("", "-absent"):
+                S("stage-%s-%s%s" % (tag, dk, ab), strat, dk + ab, **kw)
+    # the random suffix decides (242, 246, 250): judged by the property text only, never compared with the model
+    for tag, strat, kw in stage[:3]:
+        for n in (242, 246, 250):
+            S("stage-%s-long%d" % (tag, n), strat, "long%d" % n, loose=True, **kw)
+    S("stage-pgp-detached-long242-absent", "pgp", "long242-absent", loose=True)
+    S("stage-whole-long246-absent", "whole", "long246-absent", loose=True, payload=pay)
+    # the longest names that still leave room for the suffix: ordinary protocol runs
+    S("stage-whole-long230", "whole", "long230", payload=pay)
+    S("stage-whole-long241", "whole", "long241", payload=pay)
+    S("stage-pgp-clearsign-long241-absent", "pgp", "long241-absent", clearsign=True)
     return out
 
 
@@ -682,6 +743,8 @@ def pe_fixup(ctx, st, base, stats):
 def extended(ctx, st):
     base = os.path.join(ctx.scratch, "c13x")
     os.makedirs(base, exist_ok=True)
+    for pth in (ctx.scratch, base):          # the driver gives up root in the "rodir" scenarios and still has to reach its files
+        os.chmod(pth, 0o711)
     side = os.path.join(base, "prep")
     os.makedirs(side)
     open(os.path.join(side, "text.txt"), "wb").write(TEXT)
@@ -691,7 +754,11 @@ def extended(ctx, st):
         return {}
     sigs = {n: open(os.path.join(side, n), "rb").read() for n in os.listdir(side) if n.startswith("sig_")}
     scs = scenarios(base, ctx.tier)
+    if os.geteuid() != 0:
+        ctx.notes.append("not running as root: the unwritable-directory scenarios (driver drops to uid %d) are skipped" % NOBODY)
     stats = {"scenarios": 0, "runs": 0, "kill_points": 0, "fault_points": 0, "model_compared": 0, "modes": {}, "distinct": set(),
+             "staging": {"scenarios": 0, "temp_create_failed": 0, "by_errno": {}, "kill_points": 0, "fault_points": 0, "went_on_after_failure": 0,
+                         "env_compared": 0, "injected_errno": {}},
              "natural_failures": 0, "in_place": 0, "double_fault_replays": 0, "ignored_failures": 0, "samples": [], "skipped": []}
     refs = []
     # ---------------------------------------------------------------- reference runs (uninterrupted), model evaluation
@@ -710,10 +777,27 @@ def extended(ctx, st):
             continue
         cls, temps, input_ok, dest = observe_dir(ref, None)
         new = dest if rc == 0 else None
+        # "the complete new content" is known without running anything when the strategy writes what the server returned as it is
+        want_new = None
+        if sc.dest != "-" and (sc.strategy in ("whole", "writefile") or sc.family == "pgp"):
+            want_new = open(json.load(open(sc.spec))["payload"], "rb").read()
+            if rc != 0:
+                new = want_new       # (a run of the same scenario may get further than this one did: the random suffix of the temporary)
         sc.ref = {"rc": rc, "calls": calls, "phase": ph, "new": new, "stdout": out, "listing": ref.listing(),
-                  # the property exempts a destination that is patched in place; a special file is written directly: seen in the trace
-                  "exempt": any(e["k"] in (18, 19, 20) for e in ph["events"])}
+                  # the property exempts a destination that is patched in place (seen in the trace); a special file (device, pipe:
+                  # what stat reports before the run) is written directly.  A regular or absent destination opened directly is NOT exempt.
+                  "exempt": sc.special or any(e["k"] in (19, 20) for e in ph["events"])}
         stats["scenarios"] += 1
+        if sc.name.startswith("stage-"):
+            stats["staging"]["scenarios"] += 1
+            failed = [e for e in ph["events"] if e["k"] == 0 and not e["ok"]]
+            if failed:
+                stats["staging"]["temp_create_failed"] += 1
+                en = re.search(r"= -1 (E[A-Z]+)", calls[failed[0]["i"]].tail or "")
+                en = en.group(1) if en else "?"
+                stats["staging"]["by_errno"][en] = stats["staging"]["by_errno"].get(en, 0) + 1
+                if any(e["k"] in (18, 28, 1, 2, 6) for e in ph["events"][ph["events"].index(failed[0]) + 1:]):
+                    stats["staging"]["went_on_after_failure"] += 1
         desc = {"scenario": sc.name, "strategy": sc.strategy, "destination": sc.dest_kind, "spec": json.load(open(ref.spec)), "rc": rc}
         # ---- model-free oracle: normal completion or handled error
         if temps:
@@ -723,23 +807,33 @@ def extended(ctx, st):
             ctx.violation("C13:spec:input-modified", "%s: input file modified" % sc.name, desc)
         if rc != 0 and dest != sc.old:
             ctx.violation("C13:spec:dest-changed-on-error", "%s: destination changed although the operation failed" % sc.name, desc)
+        # "the complete new content": for a whole-file write / WriteFile / detached signature that is exactly what the server returned
+        if rc == 0 and want_new is not None and not sc.special:
+            if dest != want_new:
+                ctx.violation("C13:spec:complete:not-the-new-content:" + sc.family,
+                              "%s: after normal completion the destination holds %d bytes that are not the %d bytes of the new content" % (sc.name, len(dest or b""), len(want_new)), desc)
         if sc.dest == "-" and rc == 0 and not out:
             ctx.violation("C13:spec:stdout-empty", "%s: nothing written to standard output" % sc.name, desc, False)
         shutil.rmtree(ref.root, ignore_errors=True)
         refs.append(sc)
     # ---- model on the same cases
     model = {}
+    model_tf = {}        # the same scenarios in the environment "the creation of the temporary fails" (for the injected EACCES)
     if st["model_ok"] and refs:
-        reqs = [model_request(sc, sc.ref["phase"]["events"]) for sc in refs]
+        mrefs = [sc for sc in refs if not sc.kw.get("loose")]
+        reqs = [model_request(sc, sc.ref["phase"]["events"]) for sc in mrefs]
+        reqs_tf = [model_request(sc, sc.ref["phase"]["events"], env=[1, 0, 0]) for sc in mrefs]
         try:
-            res = ctx.run_model(reqs, timeout=600)
+            res = ctx.run_model(reqs + reqs_tf, timeout=600)
         except Exception as e:
             ctx.violation("C13:model-run", "model evaluation failed: %s" % e, {"error": str(e)}, False)
             res = []
-        for sc, r in zip(refs, res):
-            mode, ops, accepted, natural, final, crashes, faults = r
+        for sc, r in zip(mrefs, res[len(mrefs):]):
+            model_tf[sc.name] = {"mode": r[0], "natural": r[3], "final": r[4], "went_on": r[7], "ops": [tuple(o) for o in r[1]]}
+        for sc, r in zip(mrefs, res[:len(mrefs)]):
+            mode, ops, accepted, natural, final, crashes, faults, went_on = r
             model[sc.name] = {"mode": mode, "ops": [tuple(o) for o in ops], "accepted": accepted, "natural": natural,
-                              "final": final, "crashes": crashes, "faults": faults}
+                              "final": final, "crashes": crashes, "faults": faults, "went_on": went_on}
             stats["modes"][mode] = stats["modes"].get(mode, 0) + 1
             stats["model_compared"] += 1
             ev = sc.ref["phase"]["events"]
@@ -753,14 +847,14 @@ def extended(ctx, st):
             want = collapse2(mops)
             if mode == 1:
                 want = None        # direct write to a special file: exempt, only the absence of a temporary is checked
-            if len(stats["samples"]) < 4 and sc.name in ("patch-mid-symlink", "msi-hardlink", "pgp-clearsign-regular", "patch-outoforder"):
+            if len(stats["samples"]) < 6 and sc.name in ("patch-mid-symlink", "msi-hardlink", "pgp-clearsign-regular", "patch-outoforder", "stage-whole-long251", "stage-pgp-clearsign-rodir"):
                 stats["samples"].append({"scenario": sc.name, "mode": mode, "real_ops": [[KIND_NAMES.get(k, k), a] for k, a in real][:24],
                                          "model_ops": [[KIND_NAMES.get(k, k), a] for k, a in (want or [])][:24]})
             if want is not None and [k for k, _ in real] != [k for k, _ in want]:
                 ctx.violation("C13:correspondence:ops:" + sc.strategy,
                               "%s: system calls of the output phase %s differ from the model's plan %s" % (sc.name, [KIND_NAMES.get(k, k) for k, _ in real], [KIND_NAMES.get(k, k) for k, _ in want]),
                               dict(desc, real=real, model=want, broken="correspondence C13.Run (trace vs plan)"), False)
-            elif want is not None and natural < 0 and [a for k, a in real if k in (1, 8, 2, 9, 17, 19, 20)] != [a for k, a in want if k in (1, 8, 2, 9, 17, 19, 20)]:
+            elif want is not None and natural < 0 and [a for k, a in real if k in (1, 8, 2, 9, 17, 19, 20, 28)] != [a for k, a in want if k in (1, 8, 2, 9, 17, 19, 20, 28)]:
                 ctx.violation("C13:correspondence:amounts:" + sc.strategy, "%s: byte counts of the output phase %s differ from the model's %s" % (sc.name, real, want),
                               dict(desc, real=real, model=want, broken="correspondence C13.Run (amounts)"), False)
             if mode == 2 and not accepted:
@@ -790,7 +884,12 @@ def extended(ctx, st):
         for j, e in pts:
             jobs.append((sc, "kill", j, ordinal[e["i"]]))
             if e["name"] in ERRNO and e["k"] not in NOT_RELIC:
-                jobs.append((sc, "fail", j, ordinal[e["i"]]))
+                if e["k"] == 0:      # the creation of the temporary: every way it fails in practice, one per scenario
+                    en = CREATE_ERRNOS[(len(jobs) + len(sc.name)) % len(CREATE_ERRNOS)]
+                    stats["staging"]["injected_errno"][en] = stats["staging"]["injected_errno"].get(en, 0) + 1
+                    jobs.append((sc, "fail", j, ordinal[e["i"]] + (en,)))
+                else:
+                    jobs.append((sc, "fail", j, ordinal[e["i"]]))
         jobs.append((sc, "kill", len(evs), ("getppid", 2)))   # never reached: the run completes (end point)
         # the refuted witness, replayed: first a failing data call, then the unlink of the clean-up fails too
         firstw = next((e for e in evs if e["k"] in (1, 8, 2)), None)
@@ -823,7 +922,14 @@ def extended(ctx, st):
         m = model.get(sc.name)
         evs_ref = sc.ref["phase"]["events"]
         desc = {"scenario": sc.name, "strategy": sc.strategy, "destination": sc.dest_kind, "spec": json.load(open(sc.spec)),
-                "inject": what, "at": {"syscall": pt[0], "ordinal": pt[1], "call": (evs_ref[j]["name"] + " = " + KIND_NAMES.get(evs_ref[j]["k"], str(evs_ref[j]["k"]))) if j < len(evs_ref) else "end"}, "rc": rc}
+                "inject": what, "at": {"syscall": pt[0], "ordinal": pt[1], "call": (evs_ref[j]["name"] + " = " + KIND_NAMES.get(evs_ref[j]["k"], str(evs_ref[j]["k"]))) if j < len(evs_ref) else "end"}, "rc": rc,
+                "dest_name_bytes": len(os.path.basename(sc.dest)), "dest_existed": sc.old is not None, "driver_uid": sc.uid, "rlimit_nofile_exhausted": sc.nofile,
+                "output_phase_calls": [str(KIND_NAMES.get(e["k"], e["k"])) + ("" if e["ok"] else " (fails)") for e in evs_ref if e["k"] != 98][:40],
+                "reproduce": "directory with in.bin and%s a destination whose base name is %d bytes long%s; spec.json as in `spec` (paths adjusted); "
+                             "strace -f -e inject=%s:%s:when=%d .build/drv-c13 c13x spec.json ; then read the destination" %
+                             ("" if sc.old is not None else " WITHOUT", len(os.path.basename(sc.dest)),
+                              " (directory mode 0555, destination mode 0666, driver drops to uid %d)" % sc.uid if sc.uid else " (RLIMIT_NOFILE exhausted by the driver)" if sc.nofile else "",
+                              pt[0], "signal=SIGKILL" if what == "kill" else "error=" + (pt[2] if len(pt) > 2 else ERRNO.get(pt[0], "EIO")), pt[1])}
         exempt = sc.ref["exempt"]
         if what == "kill":
             killed = rc in (-9, 137)
@@ -842,10 +948,13 @@ def extended(ctx, st):
             if not killed and j < len(evs_ref):
                 continue    # the ordinal was not reached in this run (the runs are not perfectly repeatable): nothing to compare
             # ---- model: the state after the completed calls
-            if m is not None and m["mode"] in (2, 3) and m["natural"] < 0 and ph is not None:
+            if sc.name.startswith("stage-") and killed:
+                stats["staging"]["kill_points"] += 1
+            # (a step that fails by itself and ends the phase: the states up to it; the model's later states assume it succeeded)
+            if m is not None and m["mode"] in (2, 3) and ph is not None:
                 got = kinds_of([(e["k"], e["a"]) for e in ph["events"][:j]] if killed else [(e["k"], e["a"]) for e in ph["events"]])
                 ks = [k for k in range(len(m["ops"]) + 1) if kinds_of(m["ops"][:k]) == got]
-                if not ks:
+                if not ks or (m["natural"] >= 0 and ks[0] > m["natural"]):
                     continue
                 mc = m["crashes"][ks[0]]
                 real = [cls, 1 if temps else 0, 1 if input_ok else 0, 1 if islink else 0]
@@ -870,20 +979,40 @@ def extended(ctx, st):
                 continue
             # ---- model-free oracle: handled error (or ignored failure): no temporary, destination old or new, input unmodified
             if temps and not exempt:
-                ctx.violation("C13:spec:temp-left-after-error", "%s: %s of %s #%d (%s) fails: temporary file left next to the output: %s" % (sc.name, ERRNO.get(pt[0]), pt[0], pt[1], desc["at"]["call"], temps), dict(desc, temps=temps))
+                ctx.violation("C13:spec:temp-left-after-error", "%s: %s of %s #%d (%s) fails: temporary file left next to the output: %s" % (sc.name, (pt[2] if len(pt) > 2 else ERRNO.get(pt[0])), pt[0], pt[1], desc["at"]["call"], temps), dict(desc, temps=temps))
             if not exempt and sc.dest != "-":
                 if cls == 3 or (cls == 0 and sc.old is not None):
                     ctx.violation("C13:spec:error:%s:%s" % ("dest-missing" if cls == 0 else "dest-torn", sc.family),
-                                  "%s: %s of %s #%d (%s) fails, exit status %d: destination is %s" % (sc.name, ERRNO.get(pt[0]), pt[0], pt[1], desc["at"]["call"], rc,
+                                  "%s: %s of %s #%d (%s) fails, exit status %d: destination is %s" % (sc.name, (pt[2] if len(pt) > 2 else ERRNO.get(pt[0])), pt[0], pt[1], desc["at"]["call"], rc,
                                                                                                    "missing" if cls == 0 else "neither the previous nor the complete new content (%d bytes)" % len(dest or b"")), desc)
                 elif sc.ref["new"] != sc.old and ((rc == 0) != (cls == 2)):
                     # the path holds a complete old or new file, as the property demands, but the exit status says the opposite
                     ctx.violation("C13:outcome:%s:%s" % ("success-without-output" if rc == 0 else "error-after-commit", sc.family),
-                                  "%s: %s of %s #%d (%s) fails: exit status %d but the destination holds the %s content" % (sc.name, ERRNO.get(pt[0]), pt[0], pt[1], desc["at"]["call"], rc, "previous" if cls != 2 else "new"), desc, False)
+                                  "%s: %s of %s #%d (%s) fails: exit status %d but the destination holds the %s content" % (sc.name, (pt[2] if len(pt) > 2 else ERRNO.get(pt[0])), pt[0], pt[1], desc["at"]["call"], rc, "previous" if cls != 2 else "new"), desc, False)
                 if not input_ok:
                     ctx.violation("C13:spec:input-modified", "%s: input modified (%s #%d fails)" % (sc.name, pt[0], pt[1]), desc)
             # ---- model: fault n (not where the run already is a violation of the property: same root cause)
             bad = not exempt and sc.dest != "-" and (cls == 3 or (cls == 0 and sc.old is not None))
+            if sc.name.startswith("stage-"):
+                stats["staging"]["fault_points"] += 1
+            if evs_ref[j]["k"] == 0 and sc.name in model_tf and m is not None and m["mode"] == 2 and m["natural"] < 0 and not bad:
+                # the creation of the temporary fails (injected EACCES): the model evaluated in THAT environment says whether the open
+                # phase ends there with an error or goes on, and what the directory looks like afterwards
+                mt = model_tf[sc.name]
+                stats["staging"]["env_compared"] += 1
+                real = [cls, 1 if temps else 0, 1 if input_ok else 0, 1 if islink else 0]
+                if sc.in_place_name:
+                    real[2] = mt["final"][2]
+                got_after = kinds_of(after)
+                created = next((i for i, o in enumerate(mt["ops"]) if o[0] == 0), len(mt["ops"]))
+                exp_after = kinds_of(mt["ops"][created + 1:]) if mt["natural"] < 0 else kinds_of(mt["ops"][created + 1:mt["natural"] + 1])
+                if (rc == 0) != (mt["natural"] < 0) or real != mt["final"][:4] or got_after != exp_after:
+                    ctx.violation("C13:correspondence:stage-failure:" + sc.strategy,
+                                  "%s: creation of the temporary fails (%s #%d): real code exit %d, state %s, then calls %s; model in that environment: %s, state %s, then %s" %
+                                  (sc.name, pt[0], pt[1], rc, real, [KIND_NAMES.get(k, k) for k in got_after], "goes on" if mt["went_on"] else "reports the error",
+                                   mt["final"][:4], [KIND_NAMES.get(k, k) for k in exp_after]),
+                                  dict(desc, real=real, model=mt["final"][:4], after=got_after, model_after=exp_after, trace=ph.get("raw"), broken="correspondence C13.Run (environment: temp_create_fails)"), False)
+                continue
             if m is not None and m["mode"] == 2 and m["natural"] < 0 and not bad:
                 fk = evs_ref[j]["k"]
                 got = kinds_of([(e["k"], e["a"]) for e in evs_ref[:j + 1]])
@@ -1029,13 +1158,15 @@ def run(ctx, replay=None):
     evaluations, covered, kill_points, samples = legacy(ctx, st)
     x = extended(ctx, st)
     ctx.proof_verdict()
-    cov = ctx.proof_coverage(["srcgen: ordered call tables of atomicfile.Commit/Close/New/WriteInPlace; scripts (call, error handling kind, loop depth, enclosing branches) of Commit, Close, New, WriteFile, WriteInPlace, fileProducer.Apply, applyRewrite, msiTransformer.Apply, pgpTransformer.Apply; decisions WriteAny / isSpecial / canOverwrite / hasLinks / Apply's eligibility conditions; arguments of TempFile, Rename, Remove, Lstat",
+    cov = ctx.proof_coverage(["srcgen (session 5): atomicfile.WriteAny and atomicfile.New as decision trees over their fallible calls (callee, target = destination / sibling temporary, open(2) flags, which variable receives handle and error, every branch on err / path / isSpecial, what is returned); inventory of os / ioutil calls in fileProducer.Apply, pgpTransformer.Apply, WriteFile",
+                              "srcgen: ordered call tables of atomicfile.Commit/Close/New/WriteInPlace; scripts (call, error handling kind, loop depth, enclosing branches) of Commit, Close, New, WriteFile, WriteInPlace, fileProducer.Apply, applyRewrite, msiTransformer.Apply, pgpTransformer.Apply; decisions WriteAny / isSpecial / canOverwrite / hasLinks / Apply's eligibility conditions; arguments of TempFile, Rename, Remove, Lstat",
                               "harness: drv c13op / c13x run one output phase of the real code under strace; SIGKILL injected at syscall entry (strace -e inject=...:signal=SIGKILL:when=k), errors injected into single calls (…:error=ENOSPC|EIO|EACCES|EPERM:when=k)",
                               "what a Go library call does in system calls (io.Copy -> write / copy_file_range, File.Seek -> lseek, os.Rename -> lstat + renameat) is written by hand in C13/Strategies.v and compared with the trace on every run; comdoc's edits of the MSI copy and go-crypto's merge output are read off the trace (their content is the business of C18 / FmtPGP)",
                               "POSIX rename atomicity (the one assumed primitive); durability across power loss (fsync) is outside the property and the model"], FP)
     cov.update({"evaluations": evaluations + x.get("runs", 0), "distinct_nontrivial": len(covered) + x.get("distinct", 0),
                 "rule": "first session: 5 output strategies (WriteFile, whole-file Apply, patch-by-rewrite, MSI copy-then-edit, PGP) x destination present / absent / symbolic link; SIGKILL at each traced system call of the output phase. "
                         "Session 4: %d scenarios = strategy (whole, WriteFile, patch by rewrite / in place / failing by itself, MSI copy-then-edit / in place, PGP detached / inline / clearsign) x destination (absent, regular, symbolic link, dangling link, other directory, through a linked directory, the input itself, symbolic / hard link to the input, '-', link to /dev/null) + sequential signings; per scenario an uninterrupted run, SIGKILL at every call of the output phase and an error injected into every call; each observation judged by the property text (model-free) and compared with the extracted model (plan, scrash k, fault n); distinct = (strategy, destination, injection, kind of call) actually hit" % x.get("scenarios", 0),
+                "staging_rule": "session 5: %d scenarios in which the sibling temporary cannot be created or barely can - destination base names of 230 / 241 (fits) / 242 / 246 / 250 (the random suffix decides) / 251 / 255 bytes (ENAMETOOLONG), a directory without write permission around a writable destination (driver drops to uid %d: EACCES), RLIMIT_NOFILE exhausted (EMFILE) - x whole-file, WriteFile, PGP detached / clearsign / inline, patch by rewrite, MSI x destination present / absent; each: uninterrupted run, SIGKILL at every call of the output phase, an error injected into every call; in every ordinary scenario the creation of the temporary is also made to fail by injection and compared with the model evaluated in the environment temp_create_fails" % ((x.get("staging") or {}).get("scenarios", 0), NOBODY),
                 "samples": samples + x.get("samples", []), "kill_points": kill_points + x.get("kill_points", 0), "exhaustive": ctx.tier == "thorough",
                 "session4": {k: v for k, v in x.items() if k not in ("samples",)}})
     return ctx.finish("proof", cov, ["POSIX rename atomicity", "strace per-thread syscall counting on the locked main thread"])
